@@ -440,7 +440,9 @@ def write_evidence(prop, tier, seed, results, kres, violations, kviol, known_hit
             trusted.append("%s [%s] %s: %s" % (r.unit, t["kind"], t["where"], t["text"]))
     stats = {}
     for r in results:
-        for k, v in r.asm["stats"].items(): stats[k] = stats.get(k, 0) + v
+        for k, v in r.asm["stats"].items():
+            if isinstance(v, list): stats[k] = sorted(set(stats.get(k, []) + v))
+            else: stats[k] = stats.get(k, 0) + v
     cov = dict(
         obligations=obligations, discharged=discharged,
         checker_cmd="; ".join(sorted(set(r.cmd for r in results))) + ("; cargo kani (see kani_harnesses)" if kres else ""),
